@@ -141,12 +141,12 @@ Proof.
     + destruct (slot sh MAX_SIGNUM) eqn:Es; simpl.
       * destruct (S MAX_SIGNUM <? MAX_SIGNUM) eqn:El; constructor; fin.
       * constructor; fin.
-  - (* CP3 *)
-    unfold none_exit, pend_exit, poll_none_retest; simpl.
-    destruct (closed sh) eqn:Ecl; simpl; [constructor; fin|]. destruct op; constructor; fin.
+  - (* CP3: whatever the source does in the Ok(None) arm *)
+    unfold none_exit, pend_exit. destruct poll_none_retest; simpl;
+      (destruct (closed sh) eqn:Ecl; simpl; destruct op; constructor; fin).
   - (* CP4 *)
-    unfold none_exit, pend_exit, poll_none_retest; simpl.
-    destruct (pipe sh) eqn:Ep; simpl; constructor; fin.
+    unfold none_exit, pend_exit. destruct poll_none_retest; simpl;
+      (destruct (pipe sh) eqn:Ep; simpl; destruct op; constructor; fin).
   - (* CP5 *)
     unfold pend_exit; simpl.
     destruct (closed sh) eqn:Ecl; simpl; [constructor; fin|]. destruct op; constructor; fin.
@@ -212,8 +212,8 @@ Proof.
     + destruct (Nat.eqb ch 1); simpl; auto. destruct (pipe (w_sh w)); simpl; auto.
     + rewrite H. simpl. auto.
     + unfold do_load. destruct (slot (w_sh w) (itpos (w_co w))); simpl; auto.
-    + rewrite H. unfold none_exit, pend_exit, poll_none_retest. simpl. auto.
-    + unfold none_exit, pend_exit, poll_none_retest. destruct (pipe (w_sh w)); simpl; auto.
+    + rewrite H. unfold none_exit, pend_exit. destruct poll_none_retest; destruct (cop (w_co w)); simpl; auto.
+    + unfold none_exit, pend_exit; simpl. destruct poll_none_retest; destruct (pipe (w_sh w)); simpl; auto; destruct (cop (w_co w)); simpl; auto.
     + rewrite H. simpl. auto.
   - destruct (nth_error (w_bats w) k); simpl; auto. unfold bstep. destruct (n <? MAX_SIGNUM); simpl; auto.
     unfold do_load. destruct (slot (w_sh w) n); simpl; auto.
@@ -312,3 +312,123 @@ Proof. intro H. rewrite reach_app. apply closed_sticky_run. exact H. Qed.
 Theorem close_called_closed raw c ls k p : 1 <= c ->
   nth_error (w_fr (reach raw c ls)) k = Some (mkFrame FK p) -> p <> F0 -> closed (w_sh (reach raw c ls)) = true.
 Proof. intros Hc H Hp. exact (a_k1 _ _ (InvA_reach raw c ls Hc) k p H Hp). Qed.
+
+(** ---- C11: after close() every blocked or later call returns within a bound (solo runs) ---- *)
+Definition cstep_w (w : world) : world := fst (wstep w (LCons 0)).
+Fixpoint csolo (n : nat) (w : world) : world :=
+  match n with O => w | S k => csolo k (cstep_w w) end.
+
+(** Number of own steps the consumer still needs once the flag is set and close() has woken the pipe. *)
+Definition mu (c : cons) : nat :=
+  match cpc_ c with
+  | CIdle => 0
+  | CP1 => 1 | CP5 => 1
+  | CP3 => 2 | CFlush => 2
+  | CWClosed => 3 | CRead => 3 | CP4 => 3
+  | CP2 => (MAX_SIGNUM - itpos c) + 3
+  end.
+
+Lemma cstate_dec (p : cpc) : p = CIdle \/ p <> CIdle.
+Proof. destruct p; auto; right; discriminate. Qed.
+
+Lemma mu_bound c : mu c <= MAX_SIGNUM + 3.
+Proof. unfold mu. destruct (cpc_ c); lia. Qed.
+
+Local Arguments Nat.sub : simpl never.
+
+Lemma solo_dec c0 w : 1 <= c0 -> InvA c0 w -> closew (w_sh w) = true -> cpc_ (w_co w) <> CIdle ->
+  mu (w_co (cstep_w w)) < mu (w_co w) /\ closew (w_sh (cstep_w w)) = true.
+Proof.
+  intros Hc I Hw Hn. pose proof (a_cw _ _ I Hw) as Hcl.
+  pose proof (a_u1r _ _ I Hw) as U1. pose proof (a_u14 _ _ I Hw) as U4.
+  destruct w as [sh co bats gone fr]. destruct co as [p op it res cb n]. unfold cstep_w, mu. simpl in *.
+  unfold cstep; simpl. destruct p; simpl; try congruence.
+  - destruct op; simpl; split; auto; lia.
+  - rewrite Hcl. simpl. split; auto.
+  - specialize (U1 eq_refl). destruct (pipe sh) eqn:Ep; [lia|]. simpl. split; auto.
+  - rewrite Hcl. simpl. split; auto.
+  - unfold do_load, itpos, scan_pc; simpl. destruct it as [q|]; simpl.
+    + destruct (slot sh q); simpl; [|split; auto; lia].
+      destruct (S q <? MAX_SIGNUM) eqn:El; simpl; split; auto; [apply Nat.ltb_lt in El|apply Nat.ltb_ge in El]; lia.
+    + destruct (slot sh MAX_SIGNUM); simpl; [|split; auto; lia].
+      destruct (S MAX_SIGNUM <? MAX_SIGNUM) eqn:El; simpl; split; auto; lia.
+  - rewrite Hcl. unfold none_exit, pend_exit. destruct poll_none_retest; destruct op; simpl; split; auto.
+  - specialize (U4 eq_refl). destruct (pipe sh) eqn:Ep; [lia|]. simpl. split; auto.
+  - rewrite Hcl. simpl. split; auto.
+Qed.
+
+Lemma csolo_reach raw c ls n : exists ls', csolo n (reach raw c ls) = reach raw c (ls ++ ls').
+Proof.
+  revert ls; induction n as [|n IH]; intro ls; simpl.
+  - exists []. rewrite app_nil_r. reflexivity.
+  - unfold cstep_w. rewrite <- reach_snoc. destruct (IH (ls ++ [LCons 0])) as [l' E].
+    exists (LCons 0 :: l'). rewrite E. rewrite <- app_assoc. reflexivity.
+Qed.
+
+(** Flag-dependent part: with the re-test in poll_signal, a call that returns after close()
+    has returned never reports Pending. *)
+Lemma closed_result c0 w : 1 <= c0 -> InvA c0 w -> closew (w_sh w) = true -> cpc_ (w_co w) <> CIdle ->
+  cpc_ (w_co (cstep_w w)) = CIdle -> cres_ (w_co (cstep_w w)) <> RPending.
+Proof.
+  intros Hc I Hw Hn. pose proof (a_cw _ _ I Hw) as Hcl.
+  pose proof (a_u1r _ _ I Hw) as U1. pose proof (a_u14 _ _ I Hw) as U4.
+  destruct w as [sh co bats gone fr]. destruct co as [p op it res cb n]. unfold cstep_w. simpl in *.
+  unfold cstep; simpl. destruct p; simpl; try congruence.
+  - destruct op; simpl; congruence.
+  - rewrite Hcl. simpl. congruence.
+  - specialize (U1 eq_refl). destruct (pipe sh) eqn:Ep; [lia|]. simpl. congruence.
+  - rewrite Hcl. simpl. congruence.
+  - unfold do_load, scan_pc; simpl. destruct (slot sh _); simpl; [|congruence].
+    destruct (S _ <? MAX_SIGNUM); simpl; congruence.
+  - rewrite Hcl. unfold none_exit, pend_exit, poll_none_retest; simpl. congruence.
+  - specialize (U4 eq_refl). destruct (pipe sh) eqn:Ep; [lia|]. simpl. congruence.
+  - rewrite Hcl. simpl. congruence.
+Qed.
+
+Theorem unblocks raw c ls : 1 <= c ->
+  let w := reach raw c ls in
+  closew (w_sh w) = true ->
+  exists n, n <= MAX_SIGNUM + 3 /\ cpc_ (w_co (csolo n w)) = CIdle /\
+            (n = 0 \/ cres_ (w_co (csolo n w)) <> RPending).
+Proof.
+  intros Hc w Hw.
+  assert (G : forall m l, mu (w_co (reach raw c l)) <= m -> closew (w_sh (reach raw c l)) = true ->
+              exists n, n <= m /\ cpc_ (w_co (csolo n (reach raw c l))) = CIdle /\
+                        (n = 0 \/ cres_ (w_co (csolo n (reach raw c l))) <> RPending)).
+  { induction m as [|m IH]; intros l Hm Hcw.
+    - exists 0. simpl. split; [lia|]. split; auto. unfold mu in Hm. destruct (cpc_ (w_co (reach raw c l))); auto; lia.
+    - destruct (cstate_dec (cpc_ (w_co (reach raw c l)))) as [Ei|Ei].
+      + exists 0. simpl. split; [lia|]. auto.
+      + pose proof (InvA_reach raw c l Hc) as I.
+        destruct (solo_dec c _ Hc I Hcw Ei) as [D1 D2].
+        pose proof (closed_result c _ Hc I Hcw Ei) as R.
+        unfold cstep_w in D1, D2, R. rewrite <- reach_snoc in D1, D2, R.
+        destruct (IH (l ++ [LCons 0]) ltac:(lia) D2) as (n & Hn & Hi & Hr).
+        exists (S n). simpl. unfold cstep_w. rewrite <- reach_snoc. split; [lia|]. split; [exact Hi|]. right.
+        destruct Hr as [->|Hr]; [|exact Hr]. simpl in *. apply R. exact Hi. }
+  destruct (G (mu (w_co w)) ls (le_n _) Hw) as (n & Hn & Hi & Hr).
+  exists n. split; [pose proof (mu_bound (w_co w)); lia|]. auto.
+Qed.
+
+(** Forever::next / poll_signal started once the flag is set return Closed (None) at their first step. *)
+Theorem forever_ends w : closed (w_sh w) = true -> cpc_ (w_co w) = CP1 ->
+  cpc_ (w_co (cstep_w w)) = CIdle /\ cres_ (w_co (cstep_w w)) = RClosed.
+Proof.
+  intros Hc Hp. destruct w as [sh co bats gone fr]. destruct co as [p op it res cb n]. unfold cstep_w. simpl in *.
+  subst p. unfold cstep; simpl. rewrite Hc. simpl. auto.
+Qed.
+
+(** A poller parked after Pending has an outstanding notification once close() has returned. *)
+Theorem close_notifies_parked raw c ls : 1 <= c ->
+  let w := reach raw c ls in
+  closew (w_sh w) = true -> cpc_ (w_co w) = CIdle -> cres_ (w_co w) = RPending -> notified (w_sh w) = true.
+Proof.
+  intros Hc w Hw Hi Hr. pose proof (InvA_reach raw c ls Hc) as A. pose proof (InvP_reach raw c ls) as P. fold w in A, P.
+  exact (a_u2 _ _ A Hw (a_pend _ _ A Hi Hr) (p_pend _ P Hi Hr)).
+Qed.
+
+(** No consumer is left blocked: once close() has returned a consumer at its blocking read finds a byte. *)
+Theorem not_blocked_after_close raw c ls : 1 <= c ->
+  let w := reach raw c ls in
+  closew (w_sh w) = true -> cpc_ (w_co w) = CRead -> 0 < pipe (w_sh w).
+Proof. intros Hc w Hw Hr. exact (a_u1r _ _ (InvA_reach raw c ls Hc) Hw Hr). Qed.
